@@ -136,6 +136,8 @@ def run_history(ctx, case):
         streams = []
         acked = set()
         cls = set(pre_cls)
+        if len({tp.get("initial_max_stream_data_bidi_local", 0), tp.get("initial_max_stream_data_bidi_remote", 0), tp.get("initial_max_stream_data_uni", 0)}) > 1:
+            cls.add("c06:asymmetric-limits")
         dead = [False]
         blocked = [False]
         retransmitted = [False]
